@@ -60,6 +60,9 @@ FIXED_TEXTS = [
     "/* only a comment */",
     "",
     "a = 1 = 2",
+    "a =\nb = 2\nc = (1, 2\n",
+    "x = \"dash-\n  cont\"\n\nq =\nGROUP = g\n y = 1\nEND\n",
+    "\n\nk =\nj = \x01\n",
 ]
 
 VALIDATE_FRESH = {
@@ -193,8 +196,13 @@ def texts():
     gen = st.one_of(*[gt.documents(d, min_statements=1).map(gt.canonical_text)
                       for d in ("PVL", "ODL", "default")])
     gaps = c08.cases("default").map(lambda c: c["text"])
+    # a repaired empty value first, then something that makes the load fail
+    repaired_then_failing = st.tuples(
+        st.sampled_from(["k =\n", "\n\nk =\nj = 1\n", "a =\nb =\n"]),
+        st.sampled_from(["c = (1, 2\n", "GROUP = g\n d = 1\n", "e = \x01\n", "f = 1 = 2",
+                         "g = {1\n", "END_GROUP\n", "h = \"open\n"])).map("".join)
     return st.one_of(st.sampled_from(FIXED_TEXTS), st.sampled_from(FIXED_TEXTS), gen,
-                     gaps, faulted("PVL"), faulted("default"))
+                     gaps, faulted("PVL"), faulted("default"), repaired_then_failing)
 
 
 def specs(enc):
